@@ -95,7 +95,7 @@ func shares(u *Utxr) (map[string]*big.Int, *big.Int, bool) {
 	for _, r := range u.Rcpt {
 		if !isNullAddr(r.Addr) {
 			valid = append(valid, r)
-			W += r.Weight
+			W = (W + r.Weight) % 4294967296 // the code sums weights in a uint32
 		}
 	}
 	if len(valid) == 0 {
@@ -763,6 +763,30 @@ func monC09(tr *Trace, br map[string]int) (out []Violation) {
 			ok := c.res[0] == "ok"
 			if ok && !admin {
 				out = append(out, viol("C09", "non-admin-acted", c.i, "%s by %s succeeded for tenant %s whose admins are %v", kind, c.op[1], c.op[2], adminsOf(t)))
+			}
+			if ok && (kind == "addadmin" || kind == "rmadmin") && t != nil {
+				// the stored list is the old list with exactly the named account added at the end / removed
+				var want []string
+				for _, a := range t.Admins {
+					if kind == "rmadmin" && acctOf(a) == acctOf(c.op[3]) {
+						continue
+					}
+					want = append(want, acctOf(a))
+				}
+				if kind == "addadmin" {
+					want = append(want, acctOf(c.op[3]))
+				}
+				var got []string
+				if pt := c.post.Tenants[pu(c.op[2])]; pt != nil {
+					for _, a := range pt.Admins {
+						got = append(got, acctOf(a))
+					}
+				}
+				sort.Strings(want)
+				sort.Strings(got)
+				if strings.Join(want, ",") != strings.Join(got, ",") {
+					out = append(out, viol("C09", "admin-list-wrong", c.i, "after %s the admins of tenant %s are %v, expected %v", strings.Join(c.op, " "), c.op[2], got, want))
+				}
 			}
 			if ok {
 				br["c09:"+kind+"-ok"]++
